@@ -80,8 +80,9 @@ def _check_one(m):
             ck = report.Check(Program(src), prop, "quick")
             err = None
             try:
-                rm.check(ck)
-                ck.finish()
+                report.run_rules(ck, rm)
+                if ck.analysis_error is not None:
+                    err = str(ck.analysis_error)
             except AnalysisError as ex:
                 err = str(ex)
             viol, known, _stale = report.split_known(prop, ck.findings)
